@@ -15,14 +15,14 @@ Print Assumptions C11_decider_sound.
 
 (* no row is ever lost: afterwards the original rows are under the original name with the original definition, or their
    copies are under the temporary name, or their copies are under the original name with the new definition *)
-Theorem C11_no_row_lost : forall k pre db t nd tr ixs f sc T0, lookup t db = Some T0 ->
-  let r := run_batch k pre db t nd tr ixs f sc in
+Theorem C11_no_row_lost : forall k pre db t nd tr ixs f inj sc T0, lookup t db = Some T0 ->
+  let r := run_batch k pre db t nd tr ixs f inj sc in
   let tmp := calc_temp_name t in
   let img := map (copy_row tr) (t_rows T0) in
   (exists T, lookup t (r_final r) = Some T /\ t_def T = t_def T0 /\ t_rows T = t_rows T0) \/
   (exists T, lookup tmp (r_final r) = Some T /\ t_rows T = img) \/
   (exists T, lookup t (r_final r) = Some T /\ t_def T = nd /\ t_rows T = img).
-Proof. intros k pre db t nd tr ixs f sc T0 H. exact (no_row_lost_lk k pre db t nd tr ixs f sc T0 H). Qed.
+Proof. intros k pre db t nd tr ixs f inj sc T0 H. exact (no_row_lost_lk k pre db t nd tr ixs f inj sc T0 H). Qed.
 Print Assumptions C11_no_row_lost.
 
 (* the same on the observable the harness compares (definition identity, rows as a multiset) *)
@@ -32,22 +32,22 @@ Print Assumptions C11_no_row_lost_obs.
 
 (* a failure at or before the removal of the original (RENAME never sent): the original table is identical —
    definition, rows, indexes — for every kind and whatever the caller does with the transaction *)
-Theorem C11_original_untouched : forall k pre db t nd tr ixs f sc T0, lookup t db = Some T0 ->
-  let r := run_batch k pre db t nd tr ixs f sc in
+Theorem C11_original_untouched : forall k pre db t nd tr ixs f inj sc T0, lookup t db = Some T0 ->
+  let r := run_batch k pre db t nd tr ixs f inj sc in
   early (r_log r) = true -> lookup t (r_final r) = Some T0.
-Proof. intros k pre db t nd tr ixs f sc T0 H. exact (original_untouched_lk k pre db t nd tr ixs f sc T0 H). Qed.
+Proof. intros k pre db t nd tr ixs f inj sc T0 H. exact (original_untouched_lk k pre db t nd tr ixs f inj sc T0 H). Qed.
 Print Assumptions C11_original_untouched.
 
 (* ... and the temporary table is gone, on the class tmp_gone_class: real transactional DDL, or DDL that commits, or
    the stock sqlite3 driver when a transaction was open before / the INSERT..SELECT never reached the database /
    the transaction is committed *)
-Theorem C11_tmp_gone_partial : forall k pre db t nd tr ixs f sc T0, lookup t db = Some T0 ->
-  let r := run_batch k pre db t nd tr ixs f sc in
+Theorem C11_tmp_gone_partial : forall k pre db t nd tr ixs f inj sc T0, lookup t db = Some T0 ->
+  let r := run_batch k pre db t nd tr ixs f inj sc in
   let tmp := calc_temp_name t in
   early (r_log r) = true -> lookup tmp db = None -> handler_clean f tmp (r_log r) ->
   tmp_gone_class k pre f (eff_outcome sc (r_err r)) = true ->
   lookup tmp (r_final r) = None.
-Proof. intros k pre db t nd tr ixs f sc T0 H. exact (tmp_gone_lk k pre db t nd tr ixs f sc T0 H). Qed.
+Proof. intros k pre db t nd tr ixs f inj sc T0 H. exact (tmp_gone_lk k pre db t nd tr ixs f inj sc T0 H). Qed.
 Print Assumptions C11_tmp_gone_partial.
 
 (* outside that class the full statement is false of the faithful model (closed witness: NULL in a column made NOT NULL) *)
@@ -57,38 +57,56 @@ Proof. exact tmp_gone_refuted. Qed.
 Print Assumptions C11_tmp_gone_refuted.
 
 (* ... and not only for the witness: on the whole complement class the empty temporary table is back after the rollback *)
-Theorem C11_tmp_resurrected : forall k pre db t nd tr ixs f sc T0, lookup t db = Some T0 ->
-  let r := run_batch k pre db t nd tr ixs f sc in
+Theorem C11_tmp_resurrected : forall k pre db t nd tr ixs f inj sc T0, lookup t db = Some T0 ->
+  let r := run_batch k pre db t nd tr ixs f inj sc in
   let tmp := calc_temp_name t in
   k = Pysqlite -> pre = false -> copy_reached f = true -> eff_outcome sc (r_err r) = Rollback ->
   early (r_log r) = true -> lookup tmp db = None -> handler_clean f tmp (r_log r) ->
   lookup tmp (r_final r) = Some (mkTable nd [] []).
-Proof. intros k pre db t nd tr ixs f sc T0 H. exact (tmp_resurrected_lk k pre db t nd tr ixs f sc T0 H). Qed.
+Proof. intros k pre db t nd tr ixs f inj sc T0 H. exact (tmp_resurrected_lk k pre db t nd tr ixs f inj sc T0 H). Qed.
 Print Assumptions C11_tmp_resurrected.
 
 (* a copy whose rows violate NOT NULL / UNIQUE / CHECK of the new definition, no fault injected: IntegrityError, exactly
    CREATE tmp; INSERT..SELECT; DROP tmp are sent, the failure is an early one, the original is identical *)
-Theorem C11_natural_copy_failure : forall k pre db t nd tr ixs f sc T0, lookup t db = Some T0 ->
-  let r := run_batch k pre db t nd tr ixs f sc in
+Theorem C11_natural_copy_failure : forall k pre db t nd tr ixs f inj sc T0, lookup t db = Some T0 ->
+  let r := run_batch k pre db t nd tr ixs f inj sc in
   let tmp := calc_temp_name t in
   (forall n, f n = false) -> lookup tmp db = None -> violates nd [] (map (copy_row tr) (t_rows T0)) = true ->
   r_err r = Some EIntegrity /\ r_log r = [KCreate tmp; KCopy t tmp; KDrop tmp] /\ early (r_log r) = true /\
   lookup t (r_final r) = Some T0.
-Proof. intros k pre db t nd tr ixs f sc T0 H. exact (natural_copy_failure_lk k pre db t nd tr ixs f sc T0 H). Qed.
+Proof. intros k pre db t nd tr ixs f inj sc T0 H. exact (natural_copy_failure_lk k pre db t nd tr ixs f inj sc T0 H). Qed.
 Print Assumptions C11_natural_copy_failure.
 
 (* no other table is ever touched, failing or not *)
-Theorem C11_others_untouched : forall k pre db t nd tr ixs f sc n,
-  n <> t -> n <> calc_temp_name t -> lookup n (r_final (run_batch k pre db t nd tr ixs f sc)) = lookup n db.
-Proof. intros k pre db t nd tr ixs f sc. exact (others_untouched_lk k pre db t nd tr ixs f sc). Qed.
+Theorem C11_others_untouched : forall k pre db t nd tr ixs f inj sc n,
+  n <> t -> n <> calc_temp_name t -> lookup n (r_final (run_batch k pre db t nd tr ixs f inj sc)) = lookup n db.
+Proof. intros k pre db t nd tr ixs f inj sc. exact (others_untouched_lk k pre db t nd tr ixs f inj sc). Qed.
 Print Assumptions C11_others_untouched.
 
 (* inside one transaction a rollback restores the whole database, wherever the failure was *)
-Theorem C11_txddl_rollback_restores : forall k pre db t nd tr ixs f sc,
-  let r := run_batch k pre db t nd tr ixs f sc in
+Theorem C11_txddl_rollback_restores : forall k pre db t nd tr ixs f inj sc,
+  let r := run_batch k pre db t nd tr ixs f inj sc in
   k = TxDDL \/ (k = Pysqlite /\ pre = true) -> eff_outcome sc (r_err r) = Rollback -> r_final r = db.
-Proof. intros k pre db t nd tr ixs f sc. exact (txddl_rollback_restores_lk k pre db t nd tr ixs f sc). Qed.
+Proof. intros k pre db t nd tr ixs f inj sc. exact (txddl_rollback_restores_lk k pre db t nd tr ixs f inj sc). Qed.
 Print Assumptions C11_txddl_rollback_restores.
+
+(* bare `except:` — the handler runs for every exception class: with the same statements hit, an injected Exception and an
+   injected non-Exception BaseException (KeyboardInterrupt, SystemExit, CancelledError: `inj k = EInterrupt`) send the same
+   statements and leave the same database, on the same connection and afterwards; only the class that propagates differs.
+   (All the theorems above quantify over every `inj` as well.) *)
+Theorem C11_exception_class_irrelevant : forall k pre db t nd tr ixs f inj inj' sc,
+  let r := run_batch k pre db t nd tr ixs f inj sc in
+  let r' := run_batch k pre db t nd tr ixs f inj' sc in
+  r_log r = r_log r' /\ r_mid r = r_mid r' /\ r_final r = r_final r' /\ (r_err r = None <-> r_err r' = None).
+Proof. exact exception_class_irrelevant. Qed.
+Print Assumptions C11_exception_class_irrelevant.
+
+(* the context option transactional_ddl (unset / True / False) is never read by flush / _create: the modelled outcome
+   is the same for all three (the correspondence checks that the real code agrees, for every kind, scope and fault) *)
+Theorem C11_transactional_ddl_irrelevant : forall k pre db t nd tr ixs fl sc v1 v2,
+  model_out (mkIn k pre db t nd tr ixs fl sc v1) = model_out (mkIn k pre db t nd tr ixs fl sc v2).
+Proof. exact tddl_irrelevant. Qed.
+Print Assumptions C11_transactional_ddl_irrelevant.
 
 (* main theorem: on the proved class the model's output satisfies the property at full strength *)
 Theorem C11_holds_partial : forall i, inclass_C11 i = true -> C11_holds i (model_out i).
@@ -125,6 +143,15 @@ Example C11_holds_partial_nonvacuous :
 Proof. vm_compute. repeat split; congruence. Qed.
 
 Example C11_txddl_rollback_restores_nonvacuous :
-  let i := mkIn TxDDL false wit_db wit_t (i_nd (wit OwnScope)) (i_tr (wit OwnScope)) [] [3%nat] (Caller Rollback) in
+  let i := mkIn TxDDL false wit_db wit_t (i_nd (wit OwnScope)) (i_tr (wit OwnScope)) [] [(3%nat, EInjected)] (Caller Rollback) None in
   eff_outcome (i_scope i) (r_err (model_res i)) = Rollback /\ r_err (model_res i) <> None.
 Proof. vm_compute. split; congruence. Qed.
+
+(* an interrupt at DROP original under real transactional DDL with transactional_ddl=True, caller carries on and commits:
+   in the class, the handler's DROP is sent, the temporary table is gone *)
+Example C11_interrupt_nonvacuous :
+  let i := mkIn TxDDL false wit_db wit_t (mkDef 11 [0%nat] [[0%nat]] []) [TCol 0; TCol 1; TCol 2] [] [(2%nat, EInterrupt)] (Caller Commit) (Some true) in
+  inclass_C11 i = true /\ r_err (model_res i) = Some EInterrupt /\
+  r_log (model_res i) = [KCreate (calc_temp_name wit_t); KCopy wit_t (calc_temp_name wit_t); KDrop wit_t; KDrop (calc_temp_name wit_t)] /\
+  lookup (calc_temp_name wit_t) (r_final (model_res i)) = None.
+Proof. vm_compute. repeat split. Qed.
